@@ -4,11 +4,31 @@ import (
 	"flag"
 	"fmt"
 	"os"
+	"sort"
 )
+
+// Family: a generator (subcommand name = lower-case property id or family name) plus the executors
+// (record-prefix -> interpreter running the record on the real library).
+type Family struct {
+	Name string
+	Gen  func(r *Rng, n int, tier string)
+}
+
+var families = map[string]*Family{}
+
+func registerFamily(name string, gen func(r *Rng, n int, tier string)) {
+	families[name] = &Family{Name: name, Gen: gen}
+}
+func registerExecutor(prefix string, e Executor) { executors[prefix] = e }
 
 func main() {
 	if len(os.Args) < 2 {
-		fmt.Fprintln(os.Stderr, "usage: harness <family> [-seed N] [-n N] [-tier quick|thorough]")
+		names := []string{}
+		for k := range families {
+			names = append(names, k)
+		}
+		sort.Strings(names)
+		fmt.Fprintln(os.Stderr, "usage: harness <family> [-seed N] [-n N] [-tier quick|thorough] [-replay file]; families:", names)
 		os.Exit(2)
 	}
 	fam := os.Args[1]
@@ -20,16 +40,14 @@ func main() {
 	fs.Parse(os.Args[2:])
 	r := NewRng(*seed)
 	defer out.Flush()
-	executors["mono"] = &monoExec{}
 	if *replay != "" {
 		replayFile(*replay)
 		return
 	}
-	switch fam {
-	case "c16":
-		genC16(r, *n, *tier == "thorough")
-	default:
+	f, ok := families[fam]
+	if !ok {
 		fmt.Fprintln(os.Stderr, "unknown family", fam)
 		os.Exit(2)
 	}
+	f.Gen(r, *n, *tier)
 }
